@@ -32,6 +32,8 @@ inline std::vector<Set> catalogue(int dim) {
     { Set s; s.name = "box surface 6x6x6"; for (int i = 0; i < 6; ++i) for (int j = 0; j < 6; ++j) for (int k = 0; k < 6; ++k) if (i == 0 || j == 0 || k == 0 || i == 5 || j == 5 || k == 5) s.pts.push_back({i * 0.4 - 1, j * 0.4, k * 0.4 + 2}); v.push_back(s); }
   }
   { Set s; s.name = "two clusters 1e-3 wide, 100 apart"; for (int i = 0; i < 20; ++i) { auto a = pattern(i), b = pattern(i + 50); s.pts.push_back({5e-4 * a[0], 5e-4 * a[1], dim == 3 ? 5e-4 * a[2] : 0}); s.pts.push_back({100 + 5e-4 * b[0], 5e-4 * b[1], dim == 3 ? 5e-4 * b[2] : 0}); } v.push_back(s); }
+  { Set s; s.name = "scattered 60, extent 10 about (1e5,-2e5,3e4)"; for (int i = 0; i < 60; ++i) { auto a = pattern(i + 19); s.pts.push_back({1e5 + 10 * a[0], -2e5 + 10 * a[1], dim == 3 ? 3e4 + 10 * a[2] : 0}); } v.push_back(s); }
+  { Set s; s.name = "scattered 60, extent 2 about (100,-80,60)"; for (int i = 0; i < 60; ++i) { auto a = pattern(i + 23); s.pts.push_back({100 + 2 * a[0], -80 + 2 * a[1], dim == 3 ? 60 + 2 * a[2] : 0}); } v.push_back(s); }
   { Set s; s.name = "scattered 500 over 20 m"; for (int i = 0; i < 500; ++i) { auto a = pattern(i + 7); s.pts.push_back({10 * a[0], 10 * a[1], dim == 3 ? 10 * a[2] : 0}); } v.push_back(s); }
   return v;
 }
